@@ -94,6 +94,8 @@ func (s *session) loopRead() {
 		case <-s.quit:
 			verifhook.At2("session.loopRead.quit", s, req)
 			return
+		case <-s.p.quit:
+			return
 		}
 		verifhook.At2("session.loopRead.enqueued", s, req)
 	}
@@ -108,6 +110,8 @@ func (s *session) loopWrite() {
 		select {
 		case <-s.quit:
 			return
+		case <-s.p.quit:
+			return
 		case req = <-s.processingReqs:
 		}
 
@@ -117,6 +121,8 @@ func (s *session) loopWrite() {
 		select {
 		case <-req.done:
 		case <-s.quit:
+			return
+		case <-s.p.quit:
 			return
 		}
 		verifhook.At2("session.loopWrite.waited", s, req)
